@@ -34,6 +34,7 @@ RULE = (
     "parsed value; (3) CPU <= 2 s and tracemalloc peak <= 16 MiB + 8 x document size; (4) documents without entity "
     "declarations yield exactly the element tree xml.etree builds and the disk list of the C18 model. Non-trivial = the "
     "document declares >= 1 entity; distinct by (entry point, entity kind, depth, used/declared, encoding)."
+    ' A quarter of the documents are parsed in a worker thread; entity names that are case variants of the predefined names; a second process variant with debug logging on; peak memory must stay below 1 MiB + 16 x input.'
 )
 ASSUMPTIONS = [
     "a DOCTYPE without entity declarations (external subset reference, ELEMENT/ATTLIST declarations) is a document 'without entity "
